@@ -151,10 +151,18 @@ func cmdHeap(args []string) {
 					ops := []HeapOp{{Op: "New", K: 1 + r.Intn(4)}}
 					ncells := 1
 					if j == 7 {
+						chain := 1
 						for d := 0; d < 262+r.Intn(20); d++ {
-							ops = append(ops, HeapOp{Op: "Clone", C: ncells})
+							ops = append(ops, HeapOp{Op: "Clone", C: chain})
 							ncells++
-							ops = append(ops, HeapOp{Op: "App", C: ncells, K: 1 + r.Intn(5)})
+							chain = ncells
+							ops = append(ops, HeapOp{Op: "App", C: chain, K: 1 + r.Intn(5)})
+							if d%50 == 49 {
+								// deep in the chain: two more clones of the same statement, each extended, then the chain goes on
+								ops = append(ops, HeapOp{Op: "Clone", C: chain}, HeapOp{Op: "Clone", C: chain})
+								ncells += 2
+								ops = append(ops, HeapOp{Op: "App", C: ncells - 1, K: 1}, HeapOp{Op: "App", C: ncells, K: 2}, HeapOp{Op: "App", C: ncells - 1, K: 1})
+							}
 						}
 					} else {
 						sib := 3 + r.Intn(4)
